@@ -31,6 +31,7 @@ FILES = ["zz_verif_common_test.go", "zz_verif_c03_test.go"]
 KEY_IDCASE = "clientid-entry-case-sensitive"
 KEY_MENTRY = "mapped-entry-never-matches"
 KEY_REGEXP = "regexp-rule-lowercased"
+KEY_EXCEPT = "exception-rule-blocks"
 SILENT = ("udp", "dnscrypt")
 
 
@@ -100,16 +101,21 @@ def _re_matches(shape, n, lowered):
     return False
 
 
-def _host_code(hosts, n, q, lowered=False):
+def _host_code(hosts, n, q, lowered=False, exc_blocks=False):
     def suffix(s, n):
         return len(s) <= len(n) and n[len(n) - len(s):] == s
 
     def inside(s, n):
         return any(n[off:off + len(s)] == s for off in range(1, len(n) - len(s)))
 
-    must = may = False
+    must = may = excepted = False
     for p in hosts or []:
         if p.get("qt") and p["qt"] != q:
+            continue
+        if p.get("wl") and not exc_blocks:
+            # AccessCore: an exception that matches wins.
+            if p["k"] == "domain" and suffix(p["n"], n):
+                excepted = True
             continue
         k, pn = p["k"], p["n"]
         if k == "exact":
@@ -126,6 +132,8 @@ def _host_code(hosts, n, q, lowered=False):
         else:
             hit = False
         must = must or hit
+    if excepted:
+        return 0
     return 1 if must else 2 if may else 0
 
 
@@ -151,7 +159,8 @@ def classify(rec):
         def pred(present):
             ex = _client_blocked(rec["conc"], rec["addr"], rec.get("id"),
                                  fix_case=KEY_IDCASE not in present, fix_mapped=KEY_MENTRY not in present)
-            hv = _host_code(rec.get("hosts"), rec.get("name") or [], rec.get("qtype"), lowered=KEY_REGEXP in present)
+            hv = _host_code(rec.get("hosts"), rec.get("name") or [], rec.get("qtype"), lowered=KEY_REGEXP in present,
+                            exc_blocks=KEY_EXCEPT in present)
             return _predict(rec["level"], rec["proto"], bad_id, ex, hv)
 
         # Which of the three defects are still present in the tree under test is
@@ -159,8 +168,8 @@ def classify(rec):
         # defects whose model predicts the observed outcome, and attribute the
         # disagreement to a defect of that set whose repair alone excludes it.
         got = rec["got"]
-        allk = (KEY_IDCASE, KEY_MENTRY, KEY_REGEXP)
-        for size in (3, 2, 1):
+        allk = (KEY_IDCASE, KEY_MENTRY, KEY_REGEXP, KEY_EXCEPT)
+        for size in (4, 3, 2, 1):
             for base in itertools.combinations(allk, size):
                 if got not in pred(set(base)):
                     continue
@@ -188,6 +197,8 @@ WHAT = {
                 "verbatim, the ClientID of a request is always lower-cased): the disallowed client is served, the allowed one refused",
     KEY_MENTRY: "an entry written in IPv4-mapped IPv6 form (::ffff:a.b.c.d, ::ffff:a.b.c.0/120) matches no client, neither the "
                 "mapped nor the plain form of its address (clients are unmapped, entries are not)",
+    KEY_EXCEPT: "an exception rule (@@||name^) of blocked_hosts acts as a blocking rule: isBlockedHost uses only the boolean of "
+                "MatchRequest, which is also true when the winning rule is an exception",
     KEY_REGEXP: "a /regexp/ rule of blocked_hosts is lower-cased as text: \\D, \\S, \\W change meaning, (?P<name>..) becomes "
                 "invalid and the rule is dropped silently",
 }
@@ -333,6 +344,7 @@ def trace_disagreements(ctx, rows, verdict):
         trig = "".join(sorted({"I" for e in st["allowed"] + st["disallowed"] if e["k"] == "id" and e["sp"] == "mixed"} |
                               {"M" for e in st["allowed"] + st["disallowed"] if e["k"] != "id" and e["sp"] == "mapped"} |
                               {"R" for p in st["reported"]["hosts"] if p["k"] == "re"} |
+                              {"X" for p in st["reported"]["hosts"] if p.get("wl")} |
                               ({"B"} if r["areq"]["id"] == "~bad" else set())))
         sig = (r["lvl"], r["areq"]["form"], r["areq"]["proto"] in SILENT, r["out"], r.get("plain_out"),
                json.dumps(r.get("d"), sort_keys=True), trig)
